@@ -265,7 +265,7 @@ Definition judge15_seq (ct calls to : tree) : tree :=
 
 Definition judge15 (ti to : tree) : tree :=
   match ti with
-  | T [L 3; ct; calls] => judge15_seq ct calls to
+  | T (L 3 :: ct :: calls :: _) => judge15_seq ct calls to
   | _ => judge15_one ti to
   end.
 
